@@ -4,7 +4,8 @@
 //	                                  descriptor, the real HTTP parser, Upgrader.Upgrade inside the request's job, the
 //	                                  conn's real job queue (Conn.Execute/MustExecute) — with GATED callbacks: every
 //	                                  open/message/close handler blocks until the harness releases it.
-//	  O upgrade | recv | flip | cb | Q        R log=<completed callbacks> run=<callback currently held or ->
+//	  O upgrade | go | recv | flip | cb | Q   R log=<completed callbacks> run=<callback currently held or ->
+//	  (`C … cb holdexec=1`: the executor holds the upgrade request's closure until `go`, so `flip` can overtake it)
 //
 //	C <id> wq bound=<n> maxframe=<bytes> client=<0|1>
 //	                                  queued (asynchronous send queue) mode on an in-memory conn whose Write is GATED:
@@ -74,9 +75,20 @@ func gen(g *lp.Gen) {
 }
 
 func genCB(g *lp.Gen, id int) {
-	g.P("C %d cb", id)
-	g.P("O upgrade")
 	flipped := false
+	if g.Chance(1, 4) {
+		// the executor holds the upgrade request's closure: the close can overtake the upgrade job
+		g.P("C %d cb holdexec=1", id)
+		g.P("O upgrade")
+		if g.Chance(1, 2) {
+			g.P("O flip")
+			flipped = true
+		}
+		g.P("O go")
+	} else {
+		g.P("C %d cb", id)
+		g.P("O upgrade")
+	}
 	n := 3 + g.Intn(12)
 	for k := 0; k < n; k++ {
 		switch r := g.Intn(10); {
@@ -824,6 +836,11 @@ func checkLog(e *lp.Exec, l *cbLog, connEnded bool, what string) {
 func runCB(e *lp.Exec, head string, ops []string) {
 	vsys.VirtualAll = true
 	l := &cbLog{gate: make(chan struct{}, 1024)}
+	var hold, holdRel chan struct{}
+	if field(strings.Fields(head), "holdexec") == "1" {
+		hold = make(chan struct{})
+		holdRel = hold
+	}
 	u := websocket.NewUpgrader()
 	u.KeepaliveTime = 0
 	u.OnOpen(func(c *websocket.Conn) { l.enter("open") })
@@ -832,8 +849,16 @@ func runCB(e *lp.Exec, head string, ops []string) {
 	mux := http.NewServeMux()
 	mux.HandleFunc("/ws", func(w http.ResponseWriter, r *http.Request) { _, _ = u.Upgrade(w, r, nil) })
 	eng := nbhttp.NewEngine(nbhttp.Config{NPoller: 1, Handler: mux, SupportServerOnly: true, KeepaliveTime: time.Hour,
-		BodyAllocator:  mempool.New(1024, 1<<20),
-		ServerExecutor: func(f func()) { go f() }})
+		BodyAllocator: mempool.New(1024, 1<<20),
+		ServerExecutor: func(f func()) {
+			if hold != nil {
+				ch := hold
+				hold = nil
+				go func() { <-ch; f() }()
+				return
+			}
+			go f()
+		}})
 	u.Engine = eng
 	if err := eng.Start(); err != nil {
 		panic(err)
@@ -882,6 +907,11 @@ func runCB(e *lp.Exec, head string, ops []string) {
 		case ow[0] == "Q":
 		case ow[1] == "upgrade":
 			feed([]byte(upgradeReq))
+		case ow[1] == "go":
+			if holdRel != nil {
+				close(holdRel)
+				holdRel = nil
+			}
 		case ow[1] == "recv":
 			if !flipped {
 				feed(maskedFrame(1, []byte(fmt.Sprintf("m%d", seq))))
@@ -916,6 +946,9 @@ func runCB(e *lp.Exec, head string, ops []string) {
 	e.Key(shape+l.line(), seq >= 2)
 	e.Count("cases", "cb")
 	// drain
+	if holdRel != nil {
+		close(holdRel)
+	}
 	for i := 0; i < 64; i++ {
 		l.gate <- struct{}{}
 	}
